@@ -74,26 +74,26 @@ fn finish(
         let txt: String = log.iter().map(|(k, a, b)| format!("{k} {a:016x} {b:016x}\n")).collect();
         std::fs::write(&p, txt).unwrap_or_else(|e| harness_error(&format!("write {p}: {e}")));
     }
-    let mut replay_path = None;
-    let mut violations = 0;
-    if let Some((k, rs, scen, f)) = fail {
-        violations = 1;
-        eprintln!("run {k} (run_seed {rs}) violated {prop}: [{}] {}", f.class, f.detail);
-        let sched = sched_for(k);
-        let (min_scen, min_f) = minimise(&scen, &f, sched, rs);
-        let path = format!("{replay_dir}/{prop}-{name}-{seed}-{k}.json");
+    // A violation is reported (replay file, result file, VIOLATION line) before it is minimised:
+    // whatever happens to the minimiser, the finding stands.
+    let violations = if fail.is_some() { 1 } else { 0 };
+    let replay_path = fail.as_ref().map(|(k, ..)| format!("{replay_dir}/{prop}-{name}-{seed}-{k}.json"));
+    let write_replay = |path: &str, k: u64, rs: u64, scen: &serde_json::Value, orig: &serde_json::Value, f: &Failure, minimised: bool| {
         let doc = json!({
             "engine": name, "property": prop, "verif_seed": seed, "run": k, "run_seed": rs,
-            "class": min_f.class, "detail": min_f.detail,
-            "scheduler": sched, "scheduler_seed": rs, "iterations": iterations,
-            "schedule": min_f.schedule,
-            "scenario": min_scen,
-            "original_scenario": scen,
+            "class": f.class, "detail": f.detail, "minimised": minimised,
+            "scheduler": sched_for(k), "scheduler_seed": rs, "iterations": iterations,
+            "schedule": f.schedule,
+            "scenario": scen,
+            "original_scenario": orig,
         });
         std::fs::create_dir_all(replay_dir).ok();
-        std::fs::write(&path, serde_json::to_string_pretty(&doc).unwrap())
+        std::fs::write(path, serde_json::to_string_pretty(&doc).unwrap())
             .unwrap_or_else(|e| harness_error(&format!("write {path}: {e}")));
-        replay_path = Some(path);
+    };
+    if let (Some((k, rs, scen, f)), Some(path)) = (&fail, &replay_path) {
+        eprintln!("run {k} (run_seed {rs}) violated {prop}: [{}] {}", f.class, f.detail);
+        write_replay(path, *k, *rs, scen, scen, f, false);
     }
     let wall = t0.elapsed().as_secs_f64();
     let doc = json!({
@@ -122,8 +122,15 @@ fn finish(
         "{name}: {} schedules over {workloads} workloads in {wall:.1}s, {} distinct interleavings, {} non-trivial",
         c.schedules, distinct.len(), nontrivial.len()
     );
-    if let Some(p) = replay_path {
-        println!("VIOLATION property={prop} replay={p}");
+    if let (Some((k, rs, scen, f)), Some(path)) = (&fail, &replay_path) {
+        println!("VIOLATION property={prop} replay={path}");
+        use std::io::Write;
+        let _ = std::io::stdout().flush();
+        let sched = sched_for(*k);
+        match std::panic::catch_unwind(std::panic::AssertUnwindSafe(|| minimise(scen, f, sched, *rs))) {
+            Ok((min_scen, min_f)) => write_replay(path, *k, *rs, &min_scen, scen, &min_f, true),
+            Err(_) => eprintln!("note: the minimiser failed; the replay file holds the original workload"),
+        }
         return 1;
     }
     0
@@ -311,13 +318,20 @@ pub fn cli_images(args: &[String]) -> i32 {
     let locals: Vec<ImgLocal> = batch::run_batch(&b, |k, rs, l: &mut ImgLocal| {
         let w = Workload { spec: threads::generate_big_spec(rs), hays: vec![], threads: vec![], provenance: 0 };
         l.lines.push((k, format!("{k} {rs} {}\n", image_hash(&w.spec))));
-        // permutation independence on the same spec (no schedule involved: plain seeded sampling)
-        if w.spec.kind != crate::pma::Kind::LeftmostFirst && w.spec.patterns.len() > 1 {
+        // permutation independence on the same spec (no schedule involved: plain seeded sampling);
+        // half of the second builds also receive their input through an iterator that reports no
+        // size (the same pairs in the same or a permuted order are the same input whatever the
+        // iterator promises about its length)
+        let permutable = w.spec.kind != crate::pma::Kind::LeftmostFirst && w.spec.patterns.len() > 1;
+        let opaque = (rs >> 7) & 1 == 1;
+        if permutable || opaque {
             let mut rng = crate::rng::Rng::new(rs ^ 0x9E3779B9);
             let mut order: Vec<usize> = (0..w.spec.patterns.len()).collect();
-            rng.shuffle(&mut order);
+            if permutable && (rs >> 9) & 3 != 0 {
+                rng.shuffle(&mut order);
+            }
             let a = crate::pma::build(&w.spec);
-            let b2 = crate::pma::build_ordered(&w.spec, &order, || {});
+            let b2 = crate::pma::build_ordered_opt(&w.spec, &order, || {}, opaque);
             let same = match (&a, &b2) {
                 (Ok(x), Ok(y)) => x.serialize() == y.serialize() && x.same(&**y),
                 // both fail: fine (messages may name a pattern or an index)
@@ -327,7 +341,7 @@ pub fn cli_images(args: &[String]) -> i32 {
             if !same {
                 let mut g = perm_fail.lock().unwrap();
                 if g.as_ref().map(|f| k < f.0).unwrap_or(true) {
-                    *g = Some((k, rs, json!({"spec": w.spec, "order": order})));
+                    *g = Some((k, rs, json!({"spec": w.spec, "order": order, "opaque": opaque})));
                 }
                 return true;
             }
@@ -338,7 +352,7 @@ pub fn cli_images(args: &[String]) -> i32 {
         let replay_dir = arg(args, "--replay-dir").unwrap_or("/verif/replays").to_string();
         let path = format!("{replay_dir}/C14-perm-{seed}-{k}.json");
         let doc = json!({"engine": "perm", "property": "C14", "class": "build-order-dependent", "run": k, "run_seed": rs,
-            "detail": "building from a permutation of the same pattern/value pairs gives a different automaton", "scenario": doc});
+            "detail": "building again from the same pattern/value pairs (in the recorded order, through an iterator without a size hint when `opaque`) gives a different automaton", "scenario": doc});
         std::fs::create_dir_all(&replay_dir).ok();
         std::fs::write(&path, serde_json::to_string_pretty(&doc).unwrap()).unwrap_or_else(|e| harness_error(&format!("write {path}: {e}")));
         println!("VIOLATION property=C14 replay={path}");
@@ -364,8 +378,9 @@ pub fn replay_perm(doc: &serde_json::Value) -> i32 {
         .unwrap_or_else(|e| harness_error(&format!("replay file: bad spec: {e}")));
     let order: Vec<usize> = serde_json::from_value(doc["scenario"]["order"].clone())
         .unwrap_or_else(|e| harness_error(&format!("replay file: bad order: {e}")));
+    let opaque = doc["scenario"]["opaque"].as_bool().unwrap_or(false);
     let a = crate::pma::build(&spec);
-    let b = crate::pma::build_ordered(&spec, &order, || {});
+    let b = crate::pma::build_ordered_opt(&spec, &order, || {}, opaque);
     let same = match (&a, &b) {
         (Ok(x), Ok(y)) => x.serialize() == y.serialize() && x.same(&**y),
         (Err(_), Err(_)) => true,
